@@ -190,7 +190,8 @@ Definition dec_variant (e : sx) : option variant :=
 (* ---------- printing ---------- *)
 Definition sx_pairs (l : list (Z * bytes)) : sx := SL (map (fun p => SL [SI (fst p); SB (snd p)]) l).
 Definition sx_version (v : version) : sx :=
-  SL [SB (ver v); SI (Z.of_N (vk_type (v_key v))); sx_pairs (vset_dump (v_attrs v))].
+  SL [SB (ver v); SI (Z.of_N (vk_type (v_key v))); sx_pairs (vset_dump (v_attrs v));
+      SI (Z.of_N (v_sys v)); SB (pk_name (v_pkg v))].
 Definition sx_versions (l : list version) : sx := SL (map sx_version l).
 Definition sx_req (r : reqver) : sx :=
   SL [SI (Z.of_N (r_sys r)); SB (pk_name (r_pkg r)); SI (Z.of_N (vk_type (r_key r))); SB (vk_ver (r_key r));
@@ -245,14 +246,74 @@ Definition hop_covered (T : list systable) (o : hop) : bool :=
 Definition hop_deps_ambiguous (o : hop) : bool :=
   match o with HAdd _ ds => deps_ambiguous ds | _ => false end.
 
-Definition run_history (var : variant) (T : list systable) (ops : list hop) : sx :=
-  if negb (forallb table_wf T && forallb (hop_covered T) ops) then SL [SB sym_notable]
+(* An operation of a case: one of the client operations, or the composite "a caller reuses one
+   buffer": buf := deps; AddVersion(v1, buf[:n]); AddVersion(v2, buf[:m]); print buf.
+   [inplace] = AddVersion sorts the slice it is given in place, so the caller's buffer is a
+   value that changes: b1 after the first call, b2 after the second.  The store of the model
+   keeps values.  [alias] = the client keeps the caller's slice itself (F-C14-2): what it
+   holds for v1 is then whatever the first n elements of the buffer have become.  Both are
+   detected on the Go code by replaying the witness of F-C14-2. *)
+Inductive xop :=
+| XHop (o : hop)
+| XShared (alias inplace : bool) (v1 : version) (n : nat) (v2 : version) (m : nat) (buf : list reqver).
+
+Definition after_add (inplace : bool) (v : version) (n : nat) (buf : list reqver) : list reqver :=
+  if deleted v || negb inplace then buf else sort_deps (firstn n buf) ++ skipn n buf.
+
+Definition sx_reqs (l : list reqver) : sx := SL (map sx_req l).
+
+Fixpoint xrun (O : oracle) (var : variant) (c : client) (ops : list xop) : client * list sx :=
+  match ops with
+  | [] => (c, [])
+  | XHop o :: rest =>
+      let '(c', r) := step O var c o in
+      let '(cf, out) := xrun O var c' rest in
+      (cf, match r with Some x => sx_obs x :: out | None => out end)
+  | XShared alias inplace v1 n v2 m buf :: rest =>
+      let c1 := add_version O var c v1 (firstn n buf) in
+      let b1 := after_add inplace v1 n buf in
+      let c2 := add_version O var c1 v2 (firstn m b1) in
+      let b2 := after_add inplace v2 m b1 in
+      let c3 := if alias && negb (deleted v1) && negb (vkey_eqb (v_key v1) (v_key v2))
+                then set_imports c2 (v_key v1) (firstn n b2) else c2 in
+      let '(cf, out) := xrun O var c3 rest in
+      (cf, SL [SB sym_ok; sx_reqs b2] :: out)
+  end.
+
+Definition xop_covered (T : list systable) (o : xop) : bool :=
+  match o with
+  | XHop o => hop_covered T o
+  | XShared _ _ v1 _ v2 _ _ => covers_ver T (v_sys v1) (ver v1) && covers_ver T (v_sys v2) (ver v2)
+  end.
+
+Definition xop_deps_ambiguous (o : xop) : bool :=
+  match o with
+  | XHop o => hop_deps_ambiguous o
+  | XShared _ inplace v1 n _ m buf => deps_ambiguous (firstn n buf) || deps_ambiguous (firstn m (after_add inplace v1 n buf))
+  end.
+
+Definition run_history (var : variant) (T : list systable) (ops : list xop) : sx :=
+  if negb (forallb table_wf T && forallb (xop_covered T) ops) then SL [SB sym_notable]
   else
     let O := table_oracle T in
-    let final := run O var ops in
-    if existsb (fun e => versions_ambiguous (v_cfg var) O (snd e)) (c_pkgs final) || existsb hop_deps_ambiguous ops
+    let '(final, out) := xrun O var empty_client ops in
+    if existsb (fun e => versions_ambiguous (v_cfg var) O (snd e)) (c_pkgs final) || existsb xop_deps_ambiguous ops
     then SB sym_oom
-    else SL (map sx_obs (observe O var empty_client ops)).
+    else SL out.
+
+Definition dec_xop (e : sx) : option xop :=
+  match e with
+  | SL [SI 5%Z; SI flag; SI sys; SB name; SI vt; SB ver1; attrs1; SI n; SB ver2; attrs2; SI m; deps] =>
+      match dec_attrs attrs1, dec_attrs attrs2, dec_list dec_dep deps with
+      | Some a1, Some a2, Some ds =>
+          if (n <? 0)%Z || (m <? 0)%Z then None
+          else Some (XShared (Z.odd flag) (2 <=? flag)%Z
+                             {| v_key := mk_vkey sys name vt ver1; v_attrs := a1 |} (Z.to_nat n)
+                             {| v_key := mk_vkey sys name vt ver2; v_attrs := a2 |} (Z.to_nat m) ds)
+      | _, _, _ => None
+      end
+  | _ => match dec_hop e with Some o => Some (XHop o) | None => None end
+  end.
 
 (* apply a permutation given as indices; None when an index is out of range *)
 Fixpoint pick {A} (l : list A) (idx : list Z) : option (list A) :=
@@ -272,7 +333,7 @@ Definition run_Client (kind : bytes) (a : sx) : option sx :=
   if bytes_eqb kind k_client_history then
     Some (match a with
           | SL [var; tbl; ops] =>
-              match dec_variant var, dec_list dec_systable tbl, dec_list dec_hop ops with
+              match dec_variant var, dec_list dec_systable tbl, dec_list dec_xop ops with
               | Some var, Some T, Some ops => run_history var T ops
               | _, _, _ => badcase
               end
@@ -307,7 +368,7 @@ Definition run_Client (kind : bytes) (a : sx) : option sx :=
                       then SL [SB sym_notable]
                       else let O := table_oracle T in
                            if (N.eqb (Z.to_N sys) sys_npm || match_sorts C) && versions_ambiguous C O l then SB sym_oom
-                           else sx_versions (match_requirement C O (mk_vkey sys [112] (Z.of_N vt_requirement) req) l)
+                           else SL [sx_versions (match_requirement C O (mk_vkey sys [112] (Z.of_N vt_requirement) req) l); sx_versions l]
                   | None => badcase
                   end
               | _, _, _, _ => badcase
